@@ -433,6 +433,27 @@ func (c *BoolCtx) CmpExpr(cm *CmpInfo) *BExpr {
 		return BVar("cond:(" + ValKey(cm.X) + cm.Op + ValKey(cm.Y) + ")")
 	}
 	op := cm.Op
+	// two constants: decided
+	if xc, ok1 := x.IsConst(); ok1 {
+		if yc, ok2 := y.IsConst(); ok2 {
+			a, b := int64(xc), int64(yc)
+			if cm.Sgn && x.W < 64 {
+				a, b = int64(xc<<(64-uint(x.W)))>>(64-uint(x.W)), int64(yc<<(64-uint(y.W)))>>(64-uint(y.W))
+			}
+			var r bool
+			switch {
+			case op == "==":
+				r = xc == yc
+			case op == "!=":
+				r = xc != yc
+			case cm.Sgn:
+				r = map[string]bool{"<": a < b, "<=": a <= b, ">": a > b, ">=": a >= b}[op]
+			default:
+				r = map[string]bool{"<": xc < yc, "<=": xc <= yc, ">": xc > yc, ">=": xc >= yc}[op]
+			}
+			return BConst(r)
+		}
+	}
 	// constant on the right
 	if _, isC := x.IsConst(); isC {
 		if _, isC2 := y.IsConst(); !isC2 {
